@@ -2,3 +2,4 @@ import Driver.Util
 import Driver.SemDrv
 import Driver.SchedDrv
 import Driver.Main
+import Driver.PlaceDrv
